@@ -14,6 +14,7 @@ mod c16;
 mod c17;
 mod c18;
 mod c19;
+mod c20;
 mod dec;
 mod e1;
 mod enc;
@@ -58,6 +59,7 @@ fn run(args: &[String]) -> i32 {
                 "C12" => c12::replay(r),
                 "C15" => c15::replay(r),
                 "C02" => c02::replay(r),
+                "C20" => c20::replay(r),
                 "C16" => c16::replay(r),
                 "C06" => c06::replay(r),
                 "C10" if r["kind"] == "c10-case" => c10::replay(r),
@@ -95,6 +97,7 @@ fn run(args: &[String]) -> i32 {
                 "C12" => c12::run(tier),
                 "C15" => c15::run_check(tier),
                 "C02" => c02::run(tier),
+                "C20" => c20::run(tier),
                 "C16" => c16::run(tier),
                 "C06" => c06::run(tier),
                 _ => {
